@@ -128,9 +128,14 @@ func Exec(ctx context.Context, st state.CoreState, rq Req, crs *CrMap, variant i
 
 // Dump lists every kind of the universe.
 func Dump(ctx context.Context, st state.CoreState, crs *CrMap) []KV {
+	return DumpNS(ctx, st, crs, Namespaces)
+}
+
+// DumpNS lists every kind of the given namespaces.
+func DumpNS(ctx context.Context, st state.CoreState, crs *CrMap, namespaces []string) []KV {
 	res := []KV{}
 
-	for _, ns := range Namespaces {
+	for _, ns := range namespaces {
 		for _, typ := range Types {
 			l, err := st.List(ctx, resource.NewMetadata(ns, typ, "", resource.VersionUndefined))
 			if err != nil {
